@@ -24,9 +24,12 @@ def tasks(tier):
     if tier == "quick":
         return [("t_extract_vars", {"n_grains": 2}), ("t_extract_vars", {"n_grains": 3}),
                 ("t_step", {"n_grains": 2, "steps": 1}), ("t_step", {"n_grains": 2, "steps": 3}), ("t_step", {"n_grains": 3, "steps": 2}),
+                ("t_step", {"n_grains": 2, "steps": 2, "regime": "min_viscosity"}), ("t_step", {"n_grains": 2, "steps": 2, "regime": "max_viscosity"}),
+                ("t_step", {"n_grains": 2, "steps": 2, "regime": "matrix_diffusion"}), ("t_step", {"n_grains": 2, "steps": 2, "regime": "frictional_yielding"}),
                 ("t_rhs_pure", {"n_grains": 2})]
     return [("t_extract_vars", {"n_grains": n}) for n in (1, 2, 3, 4)] + [
-        ("t_step", {"n_grains": n, "steps": s}) for n in (2, 3, 4) for s in (1, 2, 3)
+        ("t_step", {"n_grains": n, "steps": s, "regime": rg}) for n in (2, 3, 4) for s in (1, 2, 3)
+        for rg in ("matrix_dislocation", "frictional_yielding", "matrix_diffusion", "min_viscosity", "max_viscosity")
     ] + [("t_rhs_pure", {"n_grains": 3})]
 
 
@@ -83,7 +86,7 @@ def t_extract_vars(sess, n_grains):
     sample(sess, obligation="extract_vars", N=N, f0=str(f[0])[:200])
 
 
-def t_step(sess, n_grains, steps):
+def t_step(sess, n_grains, steps, regime="matrix_dislocation"):
     mods = pydrex_modules()
     minerals, utils = mods["minerals"], mods["utils"]
     sess.encode(minerals.Mineral.update_orientations, utils.extract_vars, utils.apply_gbs)
@@ -98,7 +101,9 @@ def t_step(sess, n_grains, steps):
     def fn():
         log.clear()
         dlog.clear()
-        m, snaps = mh.make_mineral(N, history=2)
+        from .kernel import enums
+
+        m, snaps = mh.make_mineral(N, history=2, regime=getattr(enums()[2], regime))
         mh.assume_valid(snaps)
         params = mh.sym_params(N)
         L = quat.symmat("L")
@@ -111,7 +116,7 @@ def t_step(sess, n_grains, steps):
 
     with mh.env(plan, log, derivatives=mh.deriv_stub_factory(dlog, N)):
         paths, info = sym.explore(fn, max_paths=64)
-    tag = f"step[N={N},k={steps}]"
+    tag = f"step[N={N},k={steps},{regime}]"
     sess.paths[tag] = {"paths": len(paths), "runs": info["runs"]}
     if info["truncated"]:
         sess.truncated = True
@@ -200,3 +205,8 @@ def t_rhs_pure(sess, n_grains):
         sess.prove(f"{tag} path {k}: rhs does not modify any stored snapshot", p.pc, z3.And(*[all_eq(a, b) for a, b in zip(after, hist)]))
         sess.prove(f"{tag} path {k}: rhs is a function of (t, y): two evaluations agree", p.pc, all_eq(r1, r2))
     sess.satisfiable(f"{tag}: reach", paths[0].pc)
+
+
+def default_cex(name):
+    """Generic public-API replay for verdicts that carry no more specific counterexample."""
+    return {"replay": "vf.props.replays:c01_history", "case": {}, "cls": {"kind": "stored snapshot invalid or altered"}}
